@@ -1454,10 +1454,20 @@ def db_retry(func: Callable) -> Callable:
 
     @wraps(func)
     def wrapper(self: "RedunBackendDb", *args, **kwargs):
+        if self._db_retry_depth > 0:
+            # A retried operation was called from within another retried operation. Rolling
+            # back here would silently discard the pending rows of the outer operation, so
+            # let the outermost operation roll back and retry as a whole.
+            return func(self, *args, **kwargs)
+
         self._db_retries_attempt = 0
         while True:
             try:
-                return func(self, *args, **kwargs)
+                self._db_retry_depth += 1
+                try:
+                    return func(self, *args, **kwargs)
+                finally:
+                    self._db_retry_depth -= 1
             except OperationalError as error:
                 # Restore the database connection to a working state.
                 assert self.session
@@ -1583,6 +1593,7 @@ class RedunBackendDb(RedunBackend):
         self._db_retries_backoff: float = float(config.get("db_retries_backoff", "1.0"))
         self._db_retries_backoff_max: float = float(config.get("db_retries_backoff_max", "60.0"))
         self._db_retries_attempt: int = 0
+        self._db_retry_depth: int = 0
 
     def clone(self, session: Session | None = None):
         """
